@@ -56,7 +56,15 @@ THEOREMS_CARD = [
     "C10_roundtrip",
     "C10_roundtrip_refuted",
 ]
-THEOREMS = THEOREMS_WRAP + THEOREMS_CARD
+# lean/MontePyVerif/Props/C10Cards.lean: per-cell data cards of the data block (the final continuation mark of EVERY card
+# is dropped; lines that start an input and do not end in the mark are inputs of their own by Spec/Text.lean)
+THEOREMS_CELLDATA = [
+    "C10_mark_dropped",
+    "C10_no_mark_left",
+    "C10_cards_own_inputs",
+    "C10_cards_merge_refuted",
+]
+THEOREMS = THEOREMS_WRAP + THEOREMS_CARD + THEOREMS_CELLDATA
 
 V80, V128, V5 = (6, 1, 0), (6, 2, 0), (5, 1, 60)
 VERSIONS = [V80, V128, V5]
@@ -250,7 +258,7 @@ def impl_file(case):
         if src is None:
             src = os.path.join(d, "in.imcnp")
             with open(src, "w") as fh:
-                fh.write(case["text"] if "text" in case else celldata_text(case["cd"]))
+                fh.write(celldata_text(case["cd"]) if "cd" in case else case["text"])  # a stored "text" next to "cd" is for the reader
         with open(src, errors="replace") as fh:
             source = fh.read().split("\n")
         with warnings.catch_warnings():
@@ -287,9 +295,35 @@ def impl_file(case):
         with open(dst) as fh:
             written = fh.read().split("\n")
         return {"written": written, "calls": rec.calls, "has_message": p.message is not None,
-                "message_lines": len(p.message.lines) if p.message is not None else 0, "source": source, "holds": holds}
+                "message_lines": len(p.message.lines) if p.message is not None else 0, "source": source, "holds": holds,
+                "imp_data": importance_cards(p, tuple(case["version"])) if case.get("imp_cards") else None}
     finally:
         shutil.rmtree(d, ignore_errors=True)
+
+
+def importance_cards(problem, version):
+    """The texts Importance._format_tree (data-block branch) joins — `tree.format()` of every group of particles that is
+    printed together, in print order, taken from the live trees AFTER the real write (which ran _update_values) — next to
+    what the real CellModifierInput.format_for_mcnp_input made of them (its wrap_string_for_mcnp call: text and lines).
+    None when the importances are not written to the data block."""
+    if not problem.print_in_data_block["imp"]:
+        return None
+    imp = problem.cells._importance
+    if imp.in_cell_block or not imp._is_worth_printing:
+        return None
+    with warnings.catch_warnings():
+        warnings.simplefilter("ignore")
+        with Recorder() as rec:
+            lines = list(imp.format_for_mcnp_input(version))
+        printed, cards = set(), []
+        for particle, tree in imp._real_tree.items():
+            if particle in printed:
+                continue
+            printed |= tree["classifier"].particles.particles
+            cards.append(tree.format())
+    if len(rec.calls) != 1:
+        return None
+    return {"cards": cards, "text": rec.calls[0]["s"], "lines": lines}
 
 
 def impl_front(case):
@@ -955,7 +989,7 @@ def gen_celldata_case(rng, i):
         if key not in seen:
             seen.add(key)
             ed2.append(e)
-    return {"cd": cd, "edits": ed2, "version": list(v)}
+    return {"cd": cd, "edits": ed2, "version": list(v), "imp_cards": True}
 
 
 def shrink_celldata(case, fails):
@@ -1155,9 +1189,10 @@ def run(chk):
     ]
     leanio.prove(chk, "MontePyVerif.Props.C10", THEOREMS_WRAP, "MontePyVerif.C10")
     leanio.prove(chk, "MontePyVerif.Props.C10Roundtrip", THEOREMS_CARD, "MontePyVerif.C10")
+    leanio.prove(chk, "MontePyVerif.Props.C10Cards", THEOREMS_CELLDATA, "MontePyVerif.C10")
     drv = leanio.Driver(chk, "drv_c10")
     if chk.thorough:
-        leanio.leanchecker(chk, ["MontePyVerif.Props.C10", "MontePyVerif.Props.C10Roundtrip"])
+        leanio.leanchecker(chk, ["MontePyVerif.Props.C10", "MontePyVerif.Props.C10Roundtrip", "MontePyVerif.Props.C10Cards"])
 
     # ---------------------------------------------------------------- U-wrapline: _wrap_line vs wrapLine
     rng = chk.rng("lines")
@@ -1416,6 +1451,34 @@ def run(chk):
                     report_wrap(chk, {"s": c["s"], "version": c["version"], "first": c["first"]}, s2)
         file_calls += ri["calls"][:40]
     chk.units["U-file"] = {"files": len(fl_cases), "written": nfiles, "celldata_cases": ncd, "corpus_files": ncorpus_files}
+
+    # ---------------------------------------------------------------- U-celldata: IMP cards of the data block
+    # Model: importanceDataText (every card through dropFinalContinuationMark, joined) and modifierDataFormat, against the
+    # text the real Importance handed to wrap_string_for_mcnp and the lines it returned, from the cards of the live trees
+    cq, cown = [], []
+    for k, (case, ri) in enumerate(zip(fl_cases, impl)):
+        if "skip" not in ri and ri.get("imp_data"):
+            cq.append({"op": "imp_data", "cards": ri["imp_data"]["cards"], "version": case["version"]})
+            cown.append(k)
+    chk.units["U-celldata"] = {"importance_cards_in_data_block": len(cq),
+                               "cards_ending_in_mark": sum(1 for q in cq for c in q["cards"] if c.rstrip().endswith("&"))}
+    model = drv.batch(cq)
+    for j, q in enumerate(cq):
+        case, ri = fl_cases[cown[j]], impl[cown[j]]
+        if model is None:
+            break
+        chk.count("celldata-cards:" + ("mark" if any(c.rstrip().endswith("&") for c in q["cards"]) else "plain"))
+
+        def re_impl(_q, case=case):
+            r2 = impl_file(case)
+            d = (r2.get("imp_data") or {}) if "skip" not in r2 else {}
+            return {"text": d.get("text"), "lines": d.get("lines")}
+
+        compare(chk, drv, "U-celldata importanceDataText/modifierDataFormat (Model/Wrap.lean vs Importance._format_tree + "
+                "CellModifierInput.format_for_mcnp_input, data block)", dict(q, file_case=case),
+                {"text": ri["imp_data"]["text"], "lines": ri["imp_data"]["lines"]},
+                {"text": model[j].get("text"), "lines": model[j].get("lines")}, re_impl,
+                lambda x: (lambda m: {"text": m.get("text"), "lines": m.get("lines")})(drv.batch([{k: v for k, v in x.items() if k != "file_case"}])[0]))
     if nfiles == 0:
         raise MachineryError("no file could be read and written: the file generator or MontePy's reader is broken")
     if chk.dist.get("file:wrapcalls-recorded", 0) > 0 and chk.dist.get("file:wrapcalls-matched-in-file", 0) * 4 < chk.dist["file:wrapcalls-recorded"]:
